@@ -114,6 +114,11 @@ add("C22", "exploration",
     NODE_NOTE + " has_more = true with nothing left in the requested range is not judged (the server defines it as 'the stream continues').",
     "stateful property-based testing of the wire API against a reference model", "§4 C22")
 
+add("C09", "exploration",
+    "Generated per-partition histories with a confirmed prefix are handed to the real node; one subscription per case (partition, several partitions, all partitions, stream, several streams; no start position, 0, middle, at and beyond the confirmed end; window 1-1000) is driven by tape-ordered confirmations (in and out of order), appends, acknowledgements, receives, bursts larger than the broadcast channel, and - through hook H3 - confirmations injected while a history read is parked between two batches. The delivered sequence must have consecutive cursors, per partition/stream positions increasing by exactly one from the start, only events inside the harness's own confirmed prefix, at most `window` unacknowledged deliveries, and after quiescence everything confirmed from an explicit start position.",
+    NODE_NOTE + " The history/live hand-over is schedule-owned only at batch boundaries (H3); the remaining interleavings (confirmation actor vs. subscription task) are sampled by the runtime, with schedule-independent oracles. 'Eventually delivered' is judged 3 s after the last operation (60 s after a burst).",
+    "stateful property-based testing with hook-owned schedule points and order/gap/window/completeness invariants", "§4 C09")
+
 NOT_BUILT = {}
 ALL = ["C%02d" % i for i in range(1, 27)]
 for i in ALL:
